@@ -156,6 +156,29 @@ class C03(core.Check):
         r.shuffle(items)
         return {"type": typ, "items": items}
 
+    def shadow_from_created(self, typ, d):
+        """Shadow block for an object made by mappyfile.create(): defaults are simple values whose
+        lexical class follows from their Python type and the keyword's enumeration, if any."""
+        items = []
+        for k, v in d.items():
+            if k == "__type__":
+                continue
+            kinds = self.vocab.kinds_for(typ, k)
+            enum_words = {w for kd in kinds if kd.startswith("enum:") for w in kd[5:].split(",")}
+            if isinstance(v, bool):
+                toks = [["W", "TRUE" if v else "FALSE"]]
+            elif isinstance(v, (int, float)):
+                toks = [["N", str(v)]]
+            elif isinstance(v, str):
+                toks = [["W", v.upper()]] if v.lower() in enum_words else [["Q", v]]
+            elif isinstance(v, list) and all(isinstance(x, (int, float)) and not isinstance(x, bool) for x in v):
+                toks = [["N", str(x)] for x in v]
+            else:
+                return None
+            items.append([k, ["attr", toks, v, "created-default"]])
+        # (objects from create() have no default factory: reading a missing key raises KeyError, creates nothing)
+        return {"type": typ, "items": items, "nofactory": True}
+
     # ------------------------------------------------------------ real objects from the shadow
     def build(self, b):
         CI = self.CI
@@ -286,7 +309,7 @@ class C03(core.Check):
         shadow = json.loads(json.dumps(model))
         steps = []
         weights = {"set": 6, "del": 2, "add_child": 3, "remove_child": 1, "reorder": 1, "singleton": 1, "snippet": 2, "update": 2,
-                   "hidden": 1, "read_missing": 2, "repair": 2, "share": 1, "print": 6}
+                   "hidden": 1, "read_missing": 2, "repair": 2, "share": 1, "create_child": 1, "print": 6}
         for x in list(weights):
             if x != "print" and k.random() < 0.2:
                 weights[x] = 0
@@ -333,6 +356,26 @@ class C03(core.Check):
                     kids = [child] + ([self.gen_block(w, ctype, 2)] if r.random() < 0.4 else [])
                     self.set_item(blk, key, ["blocks", kids])
                     steps.append({"op": "snippet", "path": path, "key": key, "blocks": json.loads(json.dumps(kids)), "quote": r.choice(['"', "'"])})
+            elif name == "create_child":
+                ch = [c for c in self.vocab.children.get(typ, []) if not (c[1] == "symbol" and typ != "map")]
+                if not ch:
+                    continue
+                key, ctype, is_list = r.choice(ch)
+                cur = self.get_item(blk, key)
+                if cur is not None and cur[0] != ("blocks" if is_list else "block"):
+                    continue
+                version = r.choice([None, None, 7.6, 8.0])
+                child = self.shadow_from_created(ctype, self.mf.create(ctype, version))
+                if child is None:
+                    continue
+                if is_list:
+                    lst = cur[1] if cur else []
+                    lst.append(child)
+                    self.set_item(blk, key, ["blocks", lst])
+                else:
+                    self.set_item(blk, key, ["block", child])
+                steps.append({"op": "create_child", "path": path, "key": key, "type": ctype, "version": version, "is_list": is_list,
+                              "block": json.loads(json.dumps(child))})
             elif name in ("remove_child", "reorder"):
                 lists = [(kk, it) for kk, it in blk["items"] if it[0] == "blocks" and it[1]]
                 if not lists:
@@ -381,6 +424,8 @@ class C03(core.Check):
                 self.set_item(blk, key, ["attr", [], "hidden value", "hidden"])
                 steps.append({"op": "hidden", "path": path, "key": key})
             elif name == "read_missing":
+                if blk.get("nofactory"):
+                    continue
                 cands = [kk for kk in list(self.vocab.keywords.get(typ, {})) + [c[0] for c in self.vocab.children.get(typ, [])] + ["metadata"]
                          if self.get_item(blk, kk) is None]
                 if not cands:
@@ -463,6 +508,8 @@ class C03(core.Check):
                     lst = cur[1] if cur else []
                     lst.append(it[1][step["src"]])
                     self.set_item(s_to, step["key"], ["blocks", lst])
+                    if s_to.get("nofactory") and step["key"] not in r_to:
+                        r_to[step["key"]] = []
                     r_to[step["key"]].append(r_from[step["key"]][step["src"]])
                     bump("op.share")
                     continue
@@ -472,6 +519,8 @@ class C03(core.Check):
                     continue
                 key = step.get("key")
                 lk = key.lower() if key else None
+                if s.get("nofactory"):
+                    key = lk  # create() hands out a plain DefaultOrderedDict: keys are not folded on write, so use them as stored
                 if op == "set":
                     self.set_item(s, lk, step["item"])
                     r[key] = self.build_item(step["item"])
@@ -488,6 +537,8 @@ class C03(core.Check):
                     pos = min(step["pos"], len(lst))
                     lst.insert(pos, json.loads(json.dumps(step["block"])))
                     self.set_item(s, lk, ["blocks", lst])
+                    if s.get("nofactory") and key not in r:
+                        r[key] = []  # objects from create() do not auto-create their lists
                     r[key].insert(pos, self.build(step["block"]))  # r[key] auto-creates the list when missing
                 elif op == "snippet":
                     cur = self.get_item(s, lk)
@@ -521,6 +572,24 @@ class C03(core.Check):
                         continue
                     cur[1].reverse()
                     r[key].reverse()
+                elif op == "create_child":
+                    cur = self.get_item(s, lk)
+                    if cur is not None and cur[0] != ("blocks" if step["is_list"] else "block"):
+                        continue
+                    made = mf.create(step["type"], step["version"])
+                    sh = self.shadow_from_created(step["type"], made)
+                    if sh is None:
+                        continue
+                    if step["is_list"]:
+                        lst = cur[1] if cur else []
+                        lst.append(sh)
+                        self.set_item(s, lk, ["blocks", lst])
+                        if s.get("nofactory") and key not in r:
+                            r[key] = []
+                        r[key].append(made)
+                    else:
+                        self.set_item(s, lk, ["block", sh])
+                        r[key] = made
                 elif op == "singleton":
                     self.set_item(s, lk, ["block", json.loads(json.dumps(step["block"]))])
                     r[key] = self.build(step["block"])
@@ -535,7 +604,7 @@ class C03(core.Check):
                         continue
                     for pk, a in step["patch"]:
                         self.set_item(s, pk, a)
-                        patch[pk.upper() if steps % 2 else pk] = self.build_item(a)
+                        patch[pk.upper() if (steps % 2 and not s.get("nofactory")) else pk] = self.build_item(a)
                     mf.update(r, patch)
                 elif op == "hidden_kv":
                     it = self.get_item(s, lk)
@@ -549,7 +618,7 @@ class C03(core.Check):
                     self.set_item(s, lk, ["attr", [], "hidden value", "hidden"])
                     r[key] = "hidden value"
                 elif op == "read_missing":
-                    if self.get_item(s, lk) is not None:
+                    if self.get_item(s, lk) is not None or s.get("nofactory"):
                         continue
                     r[key]  # the read itself creates the entry
                     if lk in M.OBJECT_LISTS:
